@@ -361,6 +361,10 @@ def run(tier, seed):
     try:
         import e2e_general
         e2e_general.stage(chk, PROP, tier, seed)
+        # corr:dispatcher-trace (hook H1b): the history the real dispatcher received on real schedules is
+        # checked against wf_history and replayed through fold dstep (lib/trace_tie.py)
+        import trace_tie
+        trace_tie.stage_trace(chk, tier, seed)
     except RuntimeError as ex:
         chk.violation("broken-obligation", "e2e-build", dict(error=str(ex)[-3000:]), no_input=True)
     return chk.finish(
